@@ -139,6 +139,8 @@ class FileGameBuilder:
         self.chance_no = {}
         self.next_chance = 1
         self.denom = denom or rng.choice([4, 10, 100])
+        self.inc_pool = []
+        self.written = set()     # outcome ids whose payoffs have been written at some node
 
     def outcome(self, pair, fresh=False):
         if pair in self.outcomes and not fresh:
@@ -164,13 +166,28 @@ class FileGameBuilder:
             u1 = Fraction(round(b2f(t["t"]) * self.denom), self.denom)
             # the terminal completes the pair to the constant: (u1 - acc1, c - u1 - acc2)
             pair = (u1 - acc[0], self.c - u1 - acc[1])
-            return ("t", self.outcome(pair), pair)
+            oid = self.outcome(pair)
+            self.written.add(oid)
+            return ("t", oid, pair)
         inc = None
         if self.interior and r.random() < 0.3:
-            a = Fraction(r.randint(-8, 8), r.choice([1, 2, 4]))
-            inc = (a, -a)
-            acc = (acc[0] + a, acc[1] - a)
-        oid = self.outcome(inc, fresh=r.random() < 0.5) if inc is not None else 0
+            # interior payoffs need not be zero-sum: the terminals complete every path to the constant
+            if self.inc_pool and r.random() < 0.7:
+                a, b = r.choice(self.inc_pool)       # reuse: the same outcome at several nodes
+            else:
+                a = Fraction(r.randint(-8, 8), r.choice([1, 2, 4]))
+                b = -a if r.random() < 0.4 else Fraction(r.randint(-8, 8), r.choice([1, 2, 4]))
+                self.inc_pool.append((a, b))
+            inc = (a, b)
+            acc = (acc[0] + a, acc[1] + b)
+        oid = self.outcome(inc, fresh=r.random() < 0.2) if inc is not None else 0
+        shown = inc
+        if inc is not None:
+            # an outcome whose payoffs were already written at another node may be cited by number only
+            if oid in self.written and r.random() < 0.6:
+                shown = None
+            else:
+                self.written.add(oid)
         if "o" in t:
             ws = [b2f(w) for w, _ in t["o"]]
             # rational probabilities proportional to rounded weights, summing to exactly one
@@ -187,11 +204,11 @@ class FileGameBuilder:
                 no = self.next_chance
                 self.next_chance += 1
             acts = [("o%03d" % k, p, self.build(c, acc)) for k, (p, (_, c)) in enumerate(zip(probs, t["o"]))]
-            return ("c", no, acts, oid, inc)
+            return ("c", no, acts, oid, shown)
         pl = t["p"]
         no, name = self.info(pl, t["i"])
         acts = [(aname(a), self.build(c, acc)) for a, c in t["a"]]
-        return ("p", pl, no, name, acts, oid, inc)
+        return ("p", pl, no, name, acts, oid, shown)
 
 
 def shuffle_presentation(fg, rng, orders=None):
